@@ -30,6 +30,9 @@ CHECKS = {
  'C20': dict(engine='cases', tech='TLA+ state machine of site-by-site inverse-CDF sampling with exact integer Born marginals (spec/Sampling.tla; invariants ChainRule, PrefixPossible checked by TLC); TLC-generated behaviours (variates -> samples) replayed into quantum_computation.sampling with patched numpy.random.rand',
              text='TLC runs the sampling machine for every qubit count <= 4, rank profile, real/complex fill, non-empty measured subset and variate matrix in bounds, checks the chain rule in every state, and emits the exactly predicted distinct bit strings and frequencies; the real sampler fed with the same variates must reproduce them exactly; a seeded 20000-sample run must be within total variation 0.05 of the exact marginal.',
              note='trusted: TLC, spec/Sampling.tla, unittest.mock patch of numpy.random.rand; state prepared by ortho_right + normalisation (covered by C03)', ref='§5 C20'),
+ 'C13': dict(engine='cases', tech='TLA+ reference definitions of the bundled models (spec/Models.tla: Ising energy, exciton Hamiltonian, bit-reversed DFT exponent tables, FPU/Kuramoto right-hand sides, fractal seeds and Kronecker powers) enumerated over the size/parameter grid by TLC; replay compares with scikit_tt.models or checks generator / unitary structure',
+             text='TLC enumerates every model size and parameter combination in the grid and computes the exact reference tensor or table in integer arithmetic (with model-level sanity invariants); the replay builds the model with the library and compares entry-wise, checks column sums / off-diagonal signs (dense, or in TT form for sizes that do not fit) and unitarity.',
+             note='trusted: TLC, spec/Models.tla, numpy for omega^E and dense products; Shor oracle unitarity in TT form uses library arithmetic (C01)', ref='§5 C13'),
 }
 NA_REASON = 'check not built yet (work in progress)'
 
